@@ -1043,4 +1043,19 @@ theorem compile_const_sem {inputs : List String} {r : String} {e : BExp} {rets :
     (fun hu => List.mem_filterMap.mpr ⟨r, hr hu, hkey2⟩)]
   exact hcur
 
+/-! ### the classes without the De Morgan restriction -/
+
+/-- class (c) of `QV.C02` over the expression class of the repaired compiler: `inFragmentNamed` with `slDefsW`
+for `slDefs`, i.e. `Or` of any arity over any arguments (symbols, constants, compound expressions) -/
+def inFragmentNamedW (inputs : List String) (defs : List (String × BExp)) (rets : List String) : Bool :=
+  decide inputs.Nodup && inputs.all (fun n => !reservedName n) && slDefsW inputs defs &&
+    distinctB (defs.flatMap (fun p => compKeys p.2)) && rets.all (fun r => defs.any (fun p => p.1 == r))
+
+theorem inFragmentNamedW_of_inFragmentNamed {inputs : List String} {defs : List (String × BExp)}
+    {rets : List String} (h : inFragmentNamed inputs defs rets = true) :
+    inFragmentNamedW inputs defs rets = true := by
+  simp only [inFragmentNamed, Bool.and_eq_true] at h
+  simp only [inFragmentNamedW, Bool.and_eq_true]
+  exact ⟨⟨⟨h.1.1.1, slDefsW_of_slDefs _ _ h.1.1.2⟩, h.1.2⟩, h.2⟩
+
 end QV.Compiler
